@@ -358,6 +358,7 @@ class MemberSched(Scheduler):
 
 
 class C10Spec(c01.C01Spec):
+    churn_share = 0
     prop = PROP
     invariants = INVARIANTS
 
